@@ -15,6 +15,8 @@ inductive Op where
   | sendNonza (bytes : String)    -- Send(SMRequest | SMAnswer): written, never held
   | sendRaw (s : String)          -- SendRaw(s)
   | ack (h : Nat)                 -- inbound <a h='h'/> reaching Router.route
+  | sendFail (s : String)         -- Send / SendRaw of a stanza whose write fails (an error is returned): it was stored
+                                  -- before the write and stays held - nothing else changes, in particular not the head
   | inbound                       -- an inbound stanza handled by Client.recv: nothing is written, nothing held
   | req (answer : String)         -- inbound <r/> reaching Client.recv: the client writes the answer (the bytes of
                                   -- `<a h='inbound count'/>`; the count itself is C09's), through Send: never held
@@ -33,6 +35,7 @@ def step (s : St) : Op → St × List String
   | .sendStanza b => (pushS s b, [b])
   | .sendNonza b  => (s, [b])
   | .sendRaw b    => (pushS s b, [b])
+  | .sendFail b   => (pushS s b, [])
   | .req b        => (s, [b])
   | .inbound      => (s, [])
   | .ack h =>
